@@ -432,8 +432,27 @@ class ExprMixin:
                 return a is not b
         return CMP[op](a, b)
 
+    def _total_expr(self, node):
+        """call-free and without division / modulo / power: safe to evaluate on the arm that is not taken"""
+        from .interp import _walk
+        for nd in _walk(node):
+            if isinstance(nd, (E.SimpleCallNode, E.GeneralCallNode, E.DivNode, E.ModNode, E.PowNode)):
+                return False
+        return True
+
     def e_CondExprNode(self, n, fr):
-        if self.truth(self.eval(n.condition, fr)):
+        cv = self.eval(n.condition, fr)
+        if is_sym(cv) and self._total_expr(n.true_val) and self._total_expr(n.false_val):
+            # if-conversion of a call-free conditional expression with numeric arms
+            try:
+                a = self.eval(n.true_val, fr)
+                b = self.eval(n.false_val, fr)
+            except (CFault, IndexError, KeyError, ZeroDivisionError):
+                a = b = None
+            num = lambda v: isinstance(v, (int, float, Fraction, Sym)) and not isinstance(v, bool)
+            if num(a) and num(b):
+                return ite(cv, a, b)
+        if self.truth(cv):
             return self.eval(n.true_val, fr)
         return self.eval(n.false_val, fr)
 
